@@ -155,4 +155,334 @@ theorem unique_of_pairwise_ne {α κ : Type} (key : α → κ) (l : List α)
     · rw [eb] at hk; exact absurd hk.symm (h.1 a ha')
     · exact ih h.2 ha' hb'
 
+/-! ### views -/
+
+theorem viewClass_some (c : Cache) (k : RawClass) (cv : CView) (h : c.viewClass k = some cv) :
+    c.str k.obfOff = some cv.obf ∧ c.str k.origOff = some cv.orig ∧
+    ∃ ms bs, c.classMembers k = some ms ∧ c.classByParams k = some bs ∧
+      ms.mapM c.viewMember = some cv.members ∧ bs.mapM c.viewMember = some cv.byParams := by
+  unfold Cache.viewClass at h
+  split at h
+  · next obf orig ms bs h1 h2 h3 h4 =>
+    split at h
+    · next mv bv h5 h6 => cases h; exact ⟨h1, h2, ms, bs, h3, h4, h5, h6⟩
+    · cases h
+  · cases h
+
+theorem optStr_some (c : Cache) (hs : c.strings.length < u32Max) (off : Nat) (o : Option Bytes)
+    (h : c.optStr off = some o) : c.str off = o ∧ ((off != u32Max) = o.isSome) := by
+  unfold Cache.optStr at h
+  split at h
+  · next he =>
+    cases h; subst he
+    exact ⟨readString_sentinel _ hs, by simp⟩
+  · next hne =>
+    cases hstr : c.str off with
+    | none => rw [hstr] at h; cases h
+    | some s => rw [hstr] at h; cases h; simp [hne]
+
+theorem viewMember_some (c : Cache) (hs : c.strings.length < u32Max) (m : RawMember) (w : MView)
+    (h : c.viewMember m = some w) :
+    c.str m.obfOff = some w.obf ∧ c.str m.origNameOff = some w.name ∧
+    c.str m.origClassOff = w.fc ∧ (m.origClassOff != u32Max) = w.fc.isSome ∧
+    c.str m.origFileOff = w.file ∧ (m.origFileOff != u32Max) = w.file.isSome ∧
+    (c.str m.paramsOff).getD [] = w.args ∧
+    m.startline = w.startline ∧ m.endline = w.endline ∧ m.origStartline = w.origStart ∧
+    m.origEndline = w.origEnd ∧ m.origNameOff = w.nameOff := by
+  unfold Cache.viewMember at h
+  split at h
+  · next obf name fc file args h1 h2 h3 h4 h5 =>
+    cases h
+    obtain ⟨a1, a2⟩ := optStr_some c hs _ _ h3
+    obtain ⟨b1, b2⟩ := optStr_some c hs _ _ h4
+    obtain ⟨c1, c2⟩ := optStr_some c hs _ _ h5
+    refine ⟨h1, h2, a1, a2, b1, b2, ?_, rfl, rfl, rfl, rfl, rfl⟩
+    rw [c1]
+  · cases h
+
+theorem core_eq (w : MView) (e : SpecR.Entry) (h : w.core = MView.ofEntry e 0) :
+    w.obf = e.obf ∧ w.name = e.name ∧ w.args = e.args ∧ w.fc = e.fc ∧ w.file = e.file ∧
+    w.startline = (rawLines e.lm).1 ∧ w.endline = (rawLines e.lm).2.1 ∧
+    w.origStart = (rawLines e.lm).2.2.1 ∧ w.origEnd = (rawLines e.lm).2.2.2 := by
+  cases w
+  simp only [MView.core, MView.ofEntry, MView.mk.injEq] at h
+  simp only
+  obtain ⟨h1, h2, h3, h4, h5, h6, h7, h8, h9, _⟩ := h
+  exact ⟨h1, h2, h3, h4, h5, h6, h7, h8, h9⟩
+
+
+/-! ### line numbers -/
+
+def GoodLm (lm : Option LineMapping) : Prop :=
+  ∀ l, lm = some l → l.startline < u32Max ∧ l.endline < u32Max ∧
+    (∀ x, l.originalStartline = some x → x < u32Max) ∧
+    (∀ x, l.originalEndline = some x → x < u32Max)
+
+theorem asU32_small (n : Nat) (h : n < u32Max) : asU32 n = n := by
+  unfold asU32
+  apply Nat.mod_eq_of_lt
+  simp only [u32Max, u32Bound] at *; omega
+
+theorem satAdd_eq (a b : Nat) : satAdd a b = SpecR.satAdd' a b := rfl
+
+theorem rawLines_skip (lm : Option LineMapping) (hg : GoodLm lm) (line : Nat) :
+    (decide ((rawLines lm).2.1 > 0) &&
+      (decide (line < (rawLines lm).1) || decide (line > (rawLines lm).2.1))) =
+      !SpecR.applies lm line := by
+  cases lm with
+  | none => simp [rawLines, SpecR.applies]
+  | some l =>
+    obtain ⟨h1, h2, h3, h4⟩ := hg l rfl
+    have e1 := asU32_small _ h1
+    have e2 := asU32_small _ h2
+    rw [Bool.eq_iff_iff]
+    cases hos : l.originalStartline <;>
+      simp [rawLines, SpecR.applies, hos, e1, e2] <;> omega
+
+theorem rawLines_line (lm : Option LineMapping) (hg : GoodLm lm) (line : Nat) :
+    (if ((rawLines lm).2.2.2 == u32Max || (rawLines lm).2.2.2 == (rawLines lm).2.2.1) = true
+      then (rawLines lm).2.2.1
+      else satAdd (rawLines lm).2.2.1 line - (rawLines lm).1) = SpecR.origLineOf lm line := by
+  cases lm with
+  | none => simp [rawLines, SpecR.origLineOf]
+  | some l =>
+    obtain ⟨h1, h2, h3, h4⟩ := hg l rfl
+    have e1 := asU32_small _ h1
+    have e2 := asU32_small _ h2
+    cases hos : l.originalStartline with
+    | none =>
+      simp only [rawLines, SpecR.origLineOf, hos, e1, e2, satAdd_eq]
+      have : l.endline ≠ u32Max := by omega
+      simp [this]
+    | some os =>
+      have e3 := asU32_small _ (h3 os hos)
+      cases hoe : l.originalEndline with
+      | none => simp [rawLines, SpecR.origLineOf, hos, hoe, e1, e2, e3]
+      | some oe =>
+        have e4 := asU32_small _ (h4 oe hoe)
+        have : oe ≠ u32Max := by have := h4 oe hoe; omega
+        simp [rawLines, SpecR.origLineOf, hos, hoe, e1, e2, e3, e4, satAdd_eq, this]
+
+
+/-! ### one entry through `lineFrame` -/
+
+theorem extractClassName_eq (s : Bytes) : extractClassName s = SpecR.outerSimpleName s := by
+  unfold extractClassName SpecR.outerSimpleName rsplitOnce splitOnce
+  simp only
+  cases h : s.reverse.dropWhile (· != 46) with
+  | nil =>
+    simp only
+    have : s.reverse.takeWhile (· != 46) = s.reverse := by
+      have := List.takeWhile_append_dropWhile (p := (· != 46)) (l := s.reverse)
+      rw [h, List.append_nil] at this; exact this
+    rw [this, List.reverse_reverse]
+  | cons a r => simp only
+
+theorem litSynthetic_eq : litSynthetic = SpecR.syntheticMarker := rfl
+
+theorem lineFrame_entry (c : Cache) (hs : c.strings.length < u32Max) (m : RawMember) (w : MView)
+    (e : SpecR.Entry) (hv : c.viewMember m = some w) (hc : w.core = MView.ofEntry e 0)
+    (hg : GoodLm e.lm) (q : Frame) (orig : Bytes) :
+    c.lineFrame { q with cls := orig } m =
+      if SpecR.applies e.lm q.line then
+        some { cls := e.fc.getD orig, method := e.name, line := SpecR.origLineOf e.lm q.line,
+               file := SpecR.fileOf e orig q.file, params := q.params }
+      else none := by
+  obtain ⟨v1, v2, v3, v4, v5, v6, v7, v8, v9, v10, v11, v12⟩ := viewMember_some c hs m w hv
+  obtain ⟨c1, c2, c3, c4, c5, c6, c7, c8, c9⟩ := core_eq w e hc
+  unfold Cache.lineFrame
+  have hskip := rawLines_skip e.lm hg q.line
+  have hline := rawLines_line e.lm hg q.line
+  rw [← c6, ← c7, ← v8, ← v9] at hskip
+  rw [← c6, ← c8, ← c9, ← v8, ← v10, ← v11] at hline
+  simp only [hskip, hline, v2, c2, v3, c4, v5, c5, v6, v4]
+  cases ha : SpecR.applies e.lm q.line with
+  | false => simp
+  | true =>
+    simp only [Bool.not_true, Bool.false_eq_true, if_false, if_true]
+    unfold SpecR.fileOf
+    cases hf : e.file with
+    | none =>
+      simp only [Option.isSome_none, Bool.false_eq_true, if_false]
+      cases hfc : e.fc <;> simp
+    | some f =>
+      simp only [Option.isSome_some, if_true, extractClassName_eq, litSynthetic_eq, beq_iff_eq]
+      by_cases hsyn : f = SpecR.syntheticMarker <;> simp [hsyn]
+
+
+/-! ### the entries of a block come from records -/
+section
+open SpecR
+
+theorem blocksOf_body_sub (recs : List Record) (b : Block) (hb : b ∈ blocksOf recs) :
+    ∀ r ∈ b.body, r ∈ recs := by
+  induction recs with
+  | nil => simp [blocksOf] at hb
+  | cons x rest ih =>
+    cases x with
+    | cls o ob =>
+      simp only [blocksOf, List.mem_cons] at hb
+      rcases hb with rfl | hb
+      · intro r hr
+        exact List.mem_cons_of_mem _ ((List.takeWhile_sublist _).subset hr)
+      · intro r hr; exact List.mem_cons_of_mem _ (ih hb r hr)
+    | header k v =>
+      simp only [blocksOf] at hb
+      intro r hr; exact List.mem_cons_of_mem _ (ih hb r hr)
+    | field a1 a2 a3 =>
+      simp only [blocksOf] at hb
+      intro r hr; exact List.mem_cons_of_mem _ (ih hb r hr)
+    | method a1 a2 a3 a4 a5 a6 =>
+      simp only [blocksOf] at hb
+      intro r hr; exact List.mem_cons_of_mem _ (ih hb r hr)
+
+theorem lastBlock_mem (recs : List Record) (name : Bytes) (b : Block)
+    (h : lastBlock recs name = some b) : b ∈ blocksOf recs := by
+  unfold lastBlock at h
+  exact (List.mem_filter.mp (List.mem_of_getLast? h)).1
+
+theorem entriesFrom_mem (file : Option Bytes) (body : List Record) (e : Entry)
+    (he : e ∈ entriesFrom file body) : ∃ ty, Record.method ty e.name e.obf e.args e.fc e.lm ∈ body := by
+  induction body generalizing file with
+  | nil => simp [entriesFrom] at he
+  | cons x rest ih =>
+    cases x with
+    | cls o ob =>
+      simp only [entriesFrom] at he
+      obtain ⟨ty, h⟩ := ih _ he; exact ⟨ty, List.mem_cons_of_mem _ h⟩
+    | header k v =>
+      simp only [entriesFrom] at he
+      obtain ⟨ty, h⟩ := ih _ he; exact ⟨ty, List.mem_cons_of_mem _ h⟩
+    | field a1 a2 a3 =>
+      simp only [entriesFrom] at he
+      obtain ⟨ty, h⟩ := ih _ he; exact ⟨ty, List.mem_cons_of_mem _ h⟩
+    | method a1 a2 a3 a4 a5 a6 =>
+      simp only [entriesFrom, List.mem_cons] at he
+      rcases he with rfl | he
+      · exact ⟨a1, List.mem_cons_self⟩
+      · obtain ⟨ty, h⟩ := ih _ he; exact ⟨ty, List.mem_cons_of_mem _ h⟩
+
+theorem entries_goodLm (recs : List Record) (hr : ReprR recs) (name : Bytes) (b : Block)
+    (h : lastBlock recs name = some b) (e : Entry) (he : e ∈ b.entries) : GoodLm e.lm := by
+  obtain ⟨ty, hm⟩ := entriesFrom_mem none b.body e he
+  have := hr _ (blocksOf_body_sub recs b (lastBlock_mem recs name b h) _ hm)
+  simp only [ReprRec] at this
+  exact this.2.2.2.2.2.2
+
+
+end
+
+/-! ### class lookup -/
+
+theorem mapM_mem_rev {α β : Type} (f : α → Option β) (l : List α) (r : List β)
+    (h : l.mapM f = some r) (y : β) (hy : y ∈ r) : ∃ x ∈ l, f x = some y := by
+  induction l generalizing r with
+  | nil => rw [(mapM_nil_some f r).mp h] at hy; cases hy
+  | cons a l ih =>
+    obtain ⟨b, bs, hb, hbs, rfl⟩ := (mapM_cons_some f a l r).mp h
+    rcases List.mem_cons.mp hy with e | hy'
+    · exact ⟨a, List.mem_cons_self, by rw [e]; exact hb⟩
+    · obtain ⟨x, hx, hfx⟩ := ih bs hbs hy'
+      exact ⟨x, List.mem_cons_of_mem _ hx, hfx⟩
+
+theorem cmpBytes_beq (a b : Bytes) : (cmpBytes a b == .eq) = (a == b) := by
+  rw [Bool.eq_iff_iff]
+  simp [cmpBytes_eq_iff]
+
+theorem monoCmp_views (v : List CView) (name : Bytes)
+    (hs : (v.map (·.obf)).Pairwise (fun a b => cmpBytes a b = .lt)) :
+    MonoCmp v (fun cv => cmpBytes cv.obf name) := by
+  apply monoCmp_of_sorted v (·.obf) cmpBytes name cmpBytes_strictOrd.swap cmpBytes_strictOrd.trans
+    cmpBytes_strictOrd.eq_iff
+  rw [List.pairwise_map] at hs
+  exact hs.imp (fun h => by rw [h]; simp)
+
+theorem getClass_none (c : Cache) (v : List CView) (hv : c.view = some v) (name : Bytes)
+    (hn : ∀ cv ∈ v, cv.obf ≠ name) : c.getClass name = none := by
+  unfold Cache.getClass
+  rw [searchList_none]
+  intro k hk
+  obtain ⟨cv, hcv, hk'⟩ := mapM_mem _ _ _ hv k hk
+  obtain ⟨h1, _⟩ := viewClass_some c k cv hk'
+  simp only [Cache.cmpName, h1]
+  intro he
+  exact hn cv hcv ((cmpBytes_eq_iff _ _).mp he)
+
+theorem getClass_some (c : Cache) (v : List CView) (hv : c.view = some v)
+    (hs : (v.map (·.obf)).Pairwise (fun a b => cmpBytes a b = .lt)) (name : Bytes)
+    (cv : CView) (hcv : cv ∈ v) (hname : cv.obf = name) :
+    ∃ k, c.getClass name = some k ∧ c.viewClass k = some cv := by
+  have hcmp : ∀ k ∈ c.classes, ∀ cv, c.viewClass k = some cv →
+      c.cmpName k.obfOff name = cmpBytes cv.obf name := by
+    intro k _ cv hk
+    simp only [Cache.cmpName, (viewClass_some c k cv hk).1]
+  have hmono : MonoCmp c.classes (fun k => c.cmpName k.obfOff name) :=
+    mapM_monoCmp c.viewClass c.classes v hv _ (fun cv => cmpBytes cv.obf name) hcmp
+      (monoCmp_views v name hs)
+  obtain ⟨k0, hk0, hk0v⟩ := mapM_mem_rev _ _ _ hv cv hcv
+  have hex : ∃ x ∈ c.classes, (fun k => c.cmpName k.obfOff name) x = .eq :=
+    ⟨k0, hk0, by simp only [hcmp k0 hk0 cv hk0v, hname]; exact cmpBytes_strictOrd.refl _⟩
+  obtain ⟨i, x, hsearch, hx, hcx⟩ := searchList_complete _ _ hmono hex
+  obtain ⟨cv', hcv', hxv⟩ := mapM_getElem? _ _ _ hv i x hx
+  refine ⟨x, ?_, ?_⟩
+  · unfold Cache.getClass
+    rw [hsearch]; exact hx
+  · rw [hxv]
+    congr 1
+    simp only [hcmp x (List.mem_of_getElem? hx) cv' hxv] at hcx
+    have hobf : cv'.obf = cv.obf := by rw [hname]; exact (cmpBytes_eq_iff _ _).mp hcx
+    rw [List.pairwise_map] at hs
+    exact unique_of_pairwise_ne (·.obf) v
+      (hs.imp (fun h => cmpBytes_strictOrd.ne_of_lt h)) cv' cv (List.mem_of_getElem? hcv') hcv hobf
+
+
+/-! ### member ranges -/
+
+
+theorem cmpPair_beq (a b c d : Bytes) : (cmpPair (a, b) (c, d) == .eq) = (a == c && b == d) := by
+  rw [Bool.eq_iff_iff]
+  simp [cmpPair_strictOrd.eq_iff]
+
+theorem members_range (c : Cache) (ms : List RawMember) (mvs : List MView)
+    (hm : ms.mapM c.viewMember = some mvs)
+    (hsorted : mvs.Pairwise (fun x y => cmpBytes x.obf y.obf ≠ .gt)) (meth : Bytes) :
+    ∃ r, findRange ms (fun m => c.cmpName m.obfOff meth) = (if r = [] then none else some r) ∧
+      r.mapM c.viewMember = some (mvs.filter (fun x => x.obf == meth)) := by
+  have hcmp : ∀ m ∈ ms, ∀ w, c.viewMember m = some w →
+      c.cmpName m.obfOff meth = cmpBytes w.obf meth := by
+    intro m _ w hw
+    unfold Cache.viewMember at hw
+    split at hw
+    · next h1 _ _ _ _ => cases hw; simp only [Cache.cmpName, h1]
+    · cases hw
+  have hmono : MonoCmp ms (fun m => c.cmpName m.obfOff meth) :=
+    mapM_monoCmp c.viewMember ms mvs hm _ (fun w => cmpBytes w.obf meth) hcmp
+      (monoCmp_of_sorted mvs (·.obf) cmpBytes meth cmpBytes_strictOrd.swap cmpBytes_strictOrd.trans
+        cmpBytes_strictOrd.eq_iff hsorted)
+  refine ⟨ms.filter (fun m => c.cmpName m.obfOff meth == .eq), findRange_eq_filter _ _ hmono, ?_⟩
+  apply mapM_filter _ _ _ _ _ hm
+  intro m hmem w hw
+  rw [hcmp m hmem w hw, cmpBytes_beq]
+
+theorem byParams_range (c : Cache) (hs : c.strings.length < u32Max) (bs : List RawMember)
+    (bvs : List MView) (hm : bs.mapM c.viewMember = some bvs)
+    (hsorted : bvs.Pairwise (fun x y => cmpPair (x.obf, x.args) (y.obf, y.args) ≠ .gt))
+    (meth p : Bytes) :
+    ∃ r, findRange bs (fun m => c.cmpNameParams m meth p) = (if r = [] then none else some r) ∧
+      r.mapM c.viewMember = some (bvs.filter (fun x => x.obf == meth && x.args == p)) := by
+  have hcmp : ∀ m ∈ bs, ∀ w, c.viewMember m = some w →
+      c.cmpNameParams m meth p = cmpPair (w.obf, w.args) (meth, p) := by
+    intro m _ w hw
+    obtain ⟨v1, _, _, _, _, _, v7, _⟩ := viewMember_some c hs m w hw
+    simp only [Cache.cmpNameParams, v1, v7]
+  have hmono : MonoCmp bs (fun m => c.cmpNameParams m meth p) :=
+    mapM_monoCmp c.viewMember bs bvs hm _ (fun w => cmpPair (w.obf, w.args) (meth, p)) hcmp
+      (monoCmp_of_sorted bvs (fun w => (w.obf, w.args)) cmpPair (meth, p) cmpPair_strictOrd.swap
+        cmpPair_strictOrd.trans cmpPair_strictOrd.eq_iff hsorted)
+  refine ⟨bs.filter (fun m => c.cmpNameParams m meth p == .eq), findRange_eq_filter _ _ hmono, ?_⟩
+  apply mapM_filter _ _ _ _ _ hm
+  intro m hmem w hw
+  rw [hcmp m hmem w hw, cmpPair_beq]
+
+
 end PG
